@@ -189,7 +189,7 @@ static void free_resolver(void)
 static void run_single(const char *nm_tag, const char *name, size_t name_len, int canon, int qtype, int rc_mode, const char *edns_val, unsigned edns_expect, int tcp, int retx)
 {
 	static struct dw_name want; static uint8_t q1[1024], q2[1024];
-	static const uint8_t fills[4] = { 0, 0x00, 0xff, 0x5a };
+	static const uint8_t fills[8] = { 0, 0x00, 0xff, 0x5a, 0xa5, 0x0f, 0xf0, 0x33 };
 	int ref = memchr(name, 0, name_len) ? DW_E_EMPTY_LABEL : dw_name_from_text(name, name_len, &want);
 	if (new_resolver(rc_mode != 0, edns_val)) { mc_fail("harness:setup", "%s: %s", g_ctx, strerror(errno)); if (g_dns) free_resolver(); return; }
 	dp_rng_push_id(0x4321); if (rc_mode) dp_rng_push_fill(fills[rc_mode]);
@@ -226,18 +226,21 @@ static void run_single(const char *nm_tag, const char *name, size_t name_len, in
 /* F_REVERSE */
 static void run_reverse(int idx, int rc_mode, int edns)
 {
-	static const uint8_t v4[][4] = { {1,2,3,4}, {0,0,0,0}, {255,255,255,255}, {10,0,0,200}, {127,0,0,1} };
+	static const uint8_t v4[][4] = { {1,2,3,4}, {0,0,0,0}, {255,255,255,255}, {10,0,0,200}, {127,0,0,1}, {100,100,100,100}, {199,200,201,202}, {9,99,100,255} };
+#define N_V4 8
 	static const uint8_t v6[][16] = { {0,0,0,0,0,0,0,0,0,0,0,0,0,0,0,1}, {0x20,0x01,0x0d,0xb8,0,0,0,0,0,0,0,0,0xff,0,0xab,0xcd}, {255,255,255,255,255,255,255,255,255,255,255,255,255,255,255,255}, {0} };
 	static struct dw_name want; static uint8_t q1[1024]; char exp[128]; size_t o = 0;
-	int is6 = idx >= 5;
-	if (!is6) { const uint8_t *a = v4[idx]; snprintf(exp, sizeof exp, "%u.%u.%u.%u.in-addr.arpa", a[3], a[2], a[1], a[0]); }
-	else { const uint8_t *a = v6[idx - 5]; for (int i = 15; i >= 0; i--) o += (size_t)snprintf(exp + o, sizeof exp - o, "%x.%x.", a[i] & 15, a[i] >> 4); snprintf(exp + o, sizeof exp - o, "ip6.arpa"); }
+	uint8_t swept[4] = { 1, 2, 3, 4 };
+	int is6 = idx >= N_V4 && idx < 100;
+	if (idx >= 100) { swept[idx - 100] = (uint8_t)rc_mode; rc_mode = 1; }      /* thorough: octet value `rc_mode` at position idx-100 */
+	if (!is6) { const uint8_t *a = idx >= 100 ? swept : v4[idx]; snprintf(exp, sizeof exp, "%u.%u.%u.%u.in-addr.arpa", a[3], a[2], a[1], a[0]); }
+	else { const uint8_t *a = v6[idx - N_V4]; for (int i = 15; i >= 0; i--) o += (size_t)snprintf(exp + o, sizeof exp - o, "%x.%x.", a[i] & 15, a[i] >> 4); snprintf(exp + o, sizeof exp - o, "ip6.arpa"); }
 	dw_name_from_text(exp, strlen(exp), &want);
 	if (new_resolver(rc_mode != 0, edns ? "1232" : NULL)) { mc_fail("harness:setup", "%s", g_ctx); if (g_dns) free_resolver(); return; }
 	dp_rng_push_id(0x4321); if (rc_mode) dp_rng_push_fill(rc_mode == 1 ? 0x00 : 0xff);
 	struct evdns_request *h;
-	if (!is6) { struct in_addr in; memcpy(&in, v4[idx], 4); h = evdns_base_resolve_reverse(g_dns, &in, 0, resolve_cb, NULL); }
-	else { struct in6_addr in6; memcpy(&in6, v6[idx - 5], 16); h = evdns_base_resolve_reverse_ipv6(g_dns, &in6, 0, resolve_cb, NULL); }
+	if (!is6) { struct in_addr in; memcpy(&in, idx >= 100 ? swept : v4[idx], 4); h = evdns_base_resolve_reverse(g_dns, &in, 0, resolve_cb, NULL); }
+	else { struct in6_addr in6; memcpy(&in6, v6[idx - N_V4], 16); h = evdns_base_resolve_reverse_ipv6(g_dns, &in6, 0, resolve_cb, NULL); }
 	MC_COUNT("executions");
 	size_t l1 = capture(0, q1, sizeof q1);
 	mc_observe("reverse %s -> %zu octets", exp, l1);
@@ -247,13 +250,13 @@ static void run_reverse(int idx, int rc_mode, int edns)
 }
 
 /* F_SEARCH */
-static const char *doms[] = { "alpha.example", "beta.test", "c" , ".dotted.example" };
-static const char *snames[] = { "host", "host.sub", "a.b.c", "x.y.z.w" };
+static const char *doms[] = { "alpha.example", "beta.test", "c" , ".dotted.example", "five.levels.deep.zone.example" };
+static const char *snames[] = { "host", "host.sub", "a.b.c", "x.y.z.w", "UPPER", "h-1.d_2", "a.b.c.d.e", "xn--bcher-kva" };
 static void run_search(int ndom, int via_conf, int ndots, int name_i, int variant, int tcp)
 {
 	/* variant: 0 all NXDOMAIN, 1 NO_SEARCH flag, 2 second query answered positively, 3 all NODATA (NOERROR, no answer) */
 	static uint8_t q[1024]; char seq[12][300]; int nseq = 0; const char *name = snames[name_i];
-	const char *dl[4]; for (int i = 0; i < ndom; i++) dl[i] = doms[(i == 2 && ndom == 3) ? 3 : i];
+	const char *dl[5]; for (int i = 0; i < ndom; i++) dl[i] = doms[(i == 2 && ndom == 3) ? 3 : i];
 	if (new_resolver(1, NULL)) { mc_fail("harness:setup", "%s", g_ctx); if (g_dns) free_resolver(); return; }
 	if (via_conf) {
 		char conf[512]; size_t o = 0; int mfd = memfd_create("resolv", MFD_CLOEXEC); char path[64];
@@ -329,19 +332,20 @@ static void generate(const char *tier)
 {
 	int thorough = !strcmp(tier, "thorough");
 	make_names();
-	for (int n = 0; n < n_names; n++) for (int qt = 0; qt < 2; qt++) for (int rc = 0; rc < 4; rc++) for (int ed = 0; ed < 2; ed++) {
+	for (int n = 0; n < n_names; n++) for (int qt = 0; qt < 2; qt++) for (int rc = 0; rc < (thorough ? 8 : 4); rc++) for (int ed = 0; ed < (thorough ? 4 : 2); ed++) {
 		add_item(F_NAME, 0, n, qt, rc, ed, 0);
 		if (thorough || (rc == 3 && ed == 1 && qt == 0)) add_item(F_NAME, 1, n, qt, rc, ed, 0);
 	}
-	for (int i = 0; i < 9; i++) for (int rc = 0; rc < 3; rc++) for (int ed = 0; ed < 2; ed++) add_item(F_REVERSE, 0, i, rc, ed, 0, 0);
+	for (int i = 0; i < 12; i++) for (int rc = 0; rc < 3; rc++) for (int ed = 0; ed < 2; ed++) add_item(F_REVERSE, 0, i, rc, ed, 0, 0);
+	if (thorough) for (int a = 0; a < 256; a++) for (int pos = 0; pos < 4; pos++) add_item(F_REVERSE, 0, 100 + pos, a, 0, 0, 0);   /* every octet value at every position */
 	for (size_t i = 0; i < sizeof edns_vals / sizeof edns_vals[0]; i++) for (int qt = 0; qt < 2; qt++) { add_item(F_EDNS, 0, (int)i, qt, 0, 0, 0); add_item(F_EDNS, 1, (int)i, qt, 0, 0, 0); }
-	for (int ndom = 0; ndom <= 3; ndom++) for (int conf = 0; conf < 2; conf++) for (int nd = 0; nd <= 3; nd++) for (int ni = 0; ni < 4; ni++) for (int v = 0; v < 4; v++) {
+	for (int ndom = 0; ndom <= (thorough ? 5 : 3); ndom++) for (int conf = 0; conf < 2; conf++) for (int nd = 0; nd <= (thorough ? 5 : 3); nd++) for (int ni = 0; ni < (thorough ? 8 : 4); ni++) for (int v = 0; v < 4; v++) {
 		if (conf && ndom == 0) continue;
 		add_item(F_SEARCH, 0, ndom, conf, nd, ni, v);
 		if (thorough || (nd == 1 && v == 0)) add_item(F_SEARCH, 1, ndom, conf, nd, ni, v);
 	}
 	for (int n = 0; n < n_names; n++) if (names[n].canon) add_item(F_RETX, 0, n, 0, thorough ? 3 : 0, 0, 0);
-	if (thorough) for (int n = 0; n < n_names; n++) if (names[n].canon) { add_item(F_RETX, 0, n, 1, 0, 1, 0); add_item(F_RETX, 0, n, 0, 2, 1, 0); }
+	if (thorough) for (int n = 0; n < n_names; n++) if (names[n].canon) for (int rc = 0; rc < 8; rc++) { add_item(F_RETX, 0, n, 1, rc, 1, 0); add_item(F_RETX, 0, n, 0, rc, 0, 0); }
 }
 
 static void item_fn(uint64_t idx)
@@ -352,7 +356,8 @@ static void item_fn(uint64_t idx)
 	g_sfx[0] = 0;
 	switch (it->fam) {
 	case F_NAME: snprintf(g_sfx, sizeof g_sfx, ":name=%s", names[it->a].tag); snprintf(g_ctx, sizeof g_ctx, "name[%s] len=%zu %s 0x20=%d edns=%d%s", names[it->a].tag, names[it->a].len, it->b ? "AAAA" : "A", it->c, it->d, it->tcp ? " tcp" : "");
-		run_single(names[it->a].tag, names[it->a].s, names[it->a].len, names[it->a].canon, it->b ? 28 : 1, it->c, it->d ? "1232" : NULL, it->d ? 1232 : 0, it->tcp, 0); break;
+		{ static const char *ev[4] = { NULL, "1232", "513", "65535" }; static const unsigned ex[4] = { 0, 1232, 513, 65535 };
+		  run_single(names[it->a].tag, names[it->a].s, names[it->a].len, names[it->a].canon, it->b ? 28 : 1, it->c, ev[it->d], ex[it->d], it->tcp, 0); } break;
 	case F_REVERSE: snprintf(g_sfx, sizeof g_sfx, ":reverse"); snprintf(g_ctx, sizeof g_ctx, "reverse[%d] 0x20=%d edns=%d", it->a, it->b, it->c); run_reverse(it->a, it->b, it->c); break;
 	case F_EDNS: snprintf(g_sfx, sizeof g_sfx, ":edns=%s", edns_vals[it->a]); snprintf(g_ctx, sizeof g_ctx, "edns-udp-size='%s' %s%s", edns_vals[it->a], it->b ? "AAAA" : "A", it->tcp ? " tcp" : "");
 		run_single("plain", names[0].s, names[0].len, 1, it->b ? 28 : 1, 3, edns_vals[it->a], edns_exp[it->a], it->tcp, 0); break;
